@@ -3,7 +3,7 @@ Proof: Props/C11.lean about Model/LU.lean.  Ties: (K3) the REAL lu<...>/reconstr
 carrier vf::Rat, every entry of L, U, P and reconstruct(L,U,P) compared with the Lean model run over core Rat on the same
 matrix, plus an independent in-harness oracle of the property itself; (K4) float/double under every ISA: structure judged
 exactly, backward error measured against the property's bound (a test)."""
-import random
+import os, random, re
 from vlib import core, symrun, flow
 
 PID = "C11"
@@ -44,7 +44,10 @@ def rat_groups(tier, seed):
         g("rat/n9-10", [9, 10]); g("rat/n11-12", [11, 12]); g("rat/n16-17", [16, 17])
         g("rat/n20+", [20] + extra)
         g("rat/b32-33", [32, 33], seeds[:1], big + [(1, 0), (3, 1)])
-        g("rat/b65", [65], seeds[:1], [(0, 0), (2, 1)])
+        g("rat/b64-65", [64, 65], seeds[:1], [(0, 0), (2, 1)])
+        # 129 = 64 + 65: the only size class whose sub-dispatch takes BOTH branches of useless::lu_block_simple_dispatcher
+        # (lu_block_dispatcher for 64, plain recursive_lu_dispatcher for 65)
+        g("rat/b129", [129], seeds[:1], [(0, 0)])
     else:
         for a in range(9, 21, 2):
             g("rat/n%d-%d" % (a, a + 1), [a, a + 1])
@@ -53,18 +56,17 @@ def rat_groups(tier, seed):
         g("rat/b40-63", [40, 47, 63], seeds[:2], big)
         g("rat/b72-129", [72, 96, 129], seeds[:1], big)
         g("rat/n21-31", [21, 24, 27, 31], seeds[:2], VARIANTS)
-        # C++17: under C++14 + AVX-512 masks matmul of a non-SIMD element type (vf::Rat) is rejected by the compiler
-        # (compile-acceptance defect recorded and repaired under C06; not part of this property)
-        g("rat/avx512/n8-9-33", [8, 9, 33], seeds[:2], VARIANTS, isa="avx512", std="c++17")
+        g("rat/avx512/n8-9-33", [8, 9, 33], seeds[:2], VARIANTS, isa="avx512")
+        g("rat/b144", [144], seeds[:1], [(0, 0)])
     return groups
 
-def real_groups(tier, seed):
+def measured_groups(tier, seed):
+    """float/double on rounded data: structure exact, backward error MEASURED against the bound (a test)"""
     combos = [(i, t) for i in core.ALL_ISAS for t in ("float", "double")]
     if tier == "quick":
-        # three of the six (ISA, type) pairs of the quick ISAs per run, rotating with the seed; every ISA family every run
         ts = ("float", "double")
         combos = [(isa, ts[(k + seed) % 2]) for k, isa in enumerate(core.QUICK_ISAS)]
-    sizes = [2, 5, 8, 9, 12, 33] if tier == "quick" else [1, 2, 3, 4, 5, 8, 9, 12, 17, 20, 33, 65]
+    sizes = [5, 9, 33] if tier == "quick" else [1, 2, 3, 4, 5, 8, 9, 12, 17, 20, 33, 65]
     groups = []
     for isa, t in combos:
         calls = []
@@ -77,13 +79,67 @@ def real_groups(tier, seed):
         groups.append({"key": "real/%s/%s" % (isa, t), "header": "lu_real.h", "isa": isa, "opt": "-O2", "calls": calls})
     return groups
 
+def exact_groups(tier, seed):
+    """float/double on inputs whose every intermediate is exactly representable: the result must be bit for bit the exact one.
+    Every strategy x every size class (1..8 | 9..32 | 33..64 | > 64, both sides of each boundary) x every ISA x both types."""
+    rng = random.Random(seed * 5003 + 29)
+    isas = core.QUICK_ISAS if tier == "quick" else core.ALL_ISAS
+    seeds = [seed * 41 + 1, seed * 41 + 2] if tier == "quick" else [seed * 41 + k for k in range(1, 6)]
+    groups = []
+    for isa in isas:
+        for t in ("float", "double"):
+            calls = []
+            def add(n, variants, forms=(0,), sds=seeds):
+                for (s, e) in variants:
+                    for f in forms:
+                        for sd in sds:
+                            calls.append("run_luexact<%s,%d,%d,%d,%d>(%du);" % (t, n, s, e, f, sd))
+            small = [2, 3, 4, 8, rng.choice([5, 6, 7])] if tier == "quick" else list(range(1, 9))
+            mid = [9, rng.choice([16, 17])] if tier == "quick" else [9, 10, 12, 16, 17, 20, 31]
+            for n in small + mid:
+                add(n, VARIANTS)
+                add(n, [VARIANTS[(n + 1) % 6], VARIANTS[(n + 4) % 6]], forms=(1,), sds=seeds[:1])
+            add(32, [(0, 0), (2, 1)], sds=seeds[:1])
+            add(33, [(0, 0), (1, 0), (2, 1), (2, 2), (3, 2)], sds=seeds[:1])
+            add(33, [(2, 1)], forms=(1,), sds=seeds[:1])
+            if tier == "quick":
+                # one size of the 33..64 class whose halves are not multiples of the vector width (masked / remainder paths of the
+                # tmatmul and matmul kernels inside the block step)
+                add(rng.choice([40, 41, 42, 43, 56, 57, 58, 59]), [(0, 0)] if t == "float" else [(2, 1)], sds=seeds[:1])
+                add(65, [(0, 0), (2, 2)] if t == "float" else [(0, 0), (2, 1)], sds=seeds[:1])
+                if t == "double":
+                    add(64, [(0, 0)], sds=seeds[:1])
+            else:
+                add(64, [(0, 0), (2, 1)], sds=seeds[:1]); add(65, [(0, 0), (2, 1), (2, 2)], sds=seeds[:1]); add(40, [(0, 0), (2, 2)], sds=seeds[:1])
+            for n in ([2, 3, 5, 8, 9, 12] if tier == "quick" else [1, 2, 3, 4, 5, 6, 7, 8, 9, 12, 17, 20]):
+                for sd in seeds:
+                    calls.append("run_detexact<%s,%d>(%du);" % (t, n, sd))
+            groups.append({"key": "exact/%s/%s" % (isa, t), "header": "lu_exact.h", "isa": isa, "opt": "-O2", "calls": calls})
+    if tier == "thorough":
+        groups.append({"key": "exact/avx2/double/129", "header": "lu_exact.h", "isa": "avx2", "opt": "-O2",
+                       "calls": ["run_luexact<double,129,0,0,0>(%du);" % seeds[0], "run_luexact<double,129,2,1,0>(%du);" % seeds[0]]})
+    return groups
+
+def real_groups(tier, seed):
+    return exact_groups(tier, seed) + measured_groups(tier, seed)
+
+def _only(fn):
+    """VERIF_GROUPS=<regex> restricts a run to the matching translation units (used for mutation experiments only)"""
+    pat = os.environ.get("VERIF_GROUPS")
+    if not pat:
+        return fn
+    return lambda tier, seed: [g for g in fn(tier, seed) if re.search(pat, g["key"])]
+
 def short_key(f):
     d = symrun.kv(f["input"]); o = symrun.kv(f["impl"])
     return "rat lu n=%s strat=%s enc=%s form=%s fam=%s seed=%s %s" % (d.get("n"), d.get("strat"), d.get("enc"), d.get("form", "0"), d.get("fam"), d.get("seed"), o.get("ORACLE", "?"))
 
+def cyc_stats(lines):
+    return {}
+
 def run(tier, seed):
     return flow.standard_run(
-        PID, tier, seed, "Fastor.C11.lu_correct", "FastorModel.Model.LU", rat_groups, real_groups,
+        PID, tier, seed, "Fastor.C11.lu_correct", "FastorModel.Model.LU", _only(rat_groups), _only(real_groups),
         assumptions=["the strategy is defined on the input: every pivot met by the strategy is non-zero (hypothesis LUDefined of the theorems; "
                      "the harness screens its seeded matrices with an independent exact elimination)",
                      "tinverse / tmatmul / matmul return the exact inverse / product over the field (properties C10, C17, C01)",
